@@ -195,6 +195,8 @@ if os.environ.get('MUTSWEEP_SET') == '2':
     OPS = OPS2
 if os.environ.get('MUTSWEEP_SET') == '3':
     OPS = OPS3
+if os.environ.get('MUTSWEEP_SET') == '4':
+    OPS = []
 
 
 def gen():
@@ -238,6 +240,20 @@ def gen():
                     else:
                         for c in reps:
                             muts.append((path, ln, name, m.start(), m.end(), c))
+            if os.environ.get('MUTSWEEP_SET') == '4':
+                # "whether, not how": the statement / the rest of the loop runs only under an additional, opaque condition that is true in every test
+                # run (an environment variable that is not set).  A rule that checks the arguments of an event but not the conditions it happens
+                # under, or the items of a loop but not that the loop runs to its end, cannot tell these from the original.
+                s4 = code.strip()
+                ind = text[:len(text) - len(text.lstrip())]
+                if s4.endswith(';') and not s4.startswith(('let ', 'return', 'pub ', 'fn ', 'type ', 'const ', 'static ', '}', ')', ']', 'break', 'continue', 'use ', 'impl ')) \
+                        and s4.count('(') == s4.count(')') and s4.count('{') == s4.count('}') and '=>' not in s4 and '?' not in s4:
+                    if re.match(r'[\w\.\[\]\*&\(\)]+( [\+\-\*/]?= |\.\w+\()', s4) or re.match(r'\w[\w:]*\(', s4):
+                        muts.append((path, ln, 'guard-stmt', 0, len(text), ind + 'if std::env::var_os("MV_SWEEP").is_none() { ' + s4 + ' }'))
+                if re.match(r'^\s*(for .+ in .+|while .+|loop) \{\s*$', code) and 'while let' not in code:
+                    muts.append((path, ln, 'loop-early-break', 0, len(text), text.rstrip() + ' if std::env::var_os("MV_SWEEP").is_some() { break; }'))
+                    muts.append((path, ln, 'loop-early-continue', 0, len(text), text.rstrip() + ' if std::env::var_os("MV_SWEEP").is_some() { continue; }'))
+                continue
             # statement deletion: a whole-line call / compound assignment statement
             s = code.strip()
             if os.environ.get('MUTSWEEP_SET') not in ('2', '3') and s.endswith(';') and not s.startswith(('let ', 'return', 'pub ', 'fn ', 'type ', 'const ', 'static ', '}', ')', ']')) and s.count('(') == s.count(')') and s.count('{') == s.count('}') and '=>' not in s:
@@ -292,7 +308,15 @@ def make_worker(k):
 BASE_OK = [35]
 
 
+def cargo_check_only(w, timeout=300):
+    env = dict(os.environ, CARGO_NET_OFFLINE='true', CARGO_TARGET_DIR=os.path.join(w, 'target'), CARGO_INCREMENTAL='1', RUSTFLAGS='-Awarnings')
+    p = subprocess.run(['cargo', 'check', '--offline', '--lib'], cwd=os.path.join(w, 'repo'), env=env, capture_output=True, text=True, timeout=timeout)
+    return ('survived', []) if p.returncode == 0 else ('nocompile', [])
+
+
 def cargo_test(w, timeout=100):
+    if os.environ.get('MUTSWEEP_COMPILE_ONLY'):
+        return cargo_check_only(w)
     env = dict(os.environ, CARGO_NET_OFFLINE='true', CARGO_TARGET_DIR=os.path.join(w, 'target'), CARGO_INCREMENTAL='1', RUSTFLAGS='-Awarnings')
     import signal
     p = subprocess.Popen(['cargo', 'test', '--offline', '--lib', '--tests', '--no-fail-fast', '--', '--test-threads', '2'], cwd=os.path.join(w, 'repo'), env=env,
